@@ -20,6 +20,9 @@
 // For engine 0 the content of the shared cache is read back at the end of every cached run
 // (every key storage.CheckCacheKey(store, object, relation, user, invariant) of the universe).
 //
+// Before the histories: three directed probes with direct verdicts (reducerProbe below; faultProbe and
+// gateProbe in probes.go).
+//
 // The oracle (ocaml/c08_oracle.ml) compares cached with uncached answers (PROP), both with the
 // Coq models (Check/V1.v, Check/QueryCache.v, Sem) and every cache entry with the path-independent
 // value of its sub-problem.
